@@ -19,6 +19,48 @@ CLAIMS = {
         note=TRUST + "the statement is the rule table; byteorder decoding trusted.",
         technique="symbolic summary of match arms over typed THIR + MIR abstract interpretation (panic inventory)",
         design="5/C06"),
+    "C05": dict(
+        category="proof",
+        text="Assume-guarantee closure: every panic-capable site reachable from the interpreter entry (MIR asserts, unwrap/index/"
+             "panic calls) is proved unable to fire by an interval/linear/congruence analysis or is discharged by a row citing a "
+             "guarantee; each guarantee (opcode cover, endian widths, register bound, no fall-off, validated control targets) is "
+             "checked by comparing the verifier's extracted accept conditions with the interpreter's per-opcode path summaries.",
+        note=TRUST + "assumption A-addr (slice addresses < 2^63); user helpers outside the claim; non-termination allowed.",
+        technique="MIR abstract interpretation (panic inventory) + THIR symbolic summaries, assume-guarantee rows",
+        design="5/C05"),
+    "C10": dict(
+        category="proof",
+        text="Per-method path rules over symbolic summaries of the VM API methods: failure atomicity of set_program/set_verifier, "
+             "verify-before-store, who-may-write, paired writes with compiled-artefact invalidation, None->Err, &self execution. "
+             "Histories of any length follow by induction over calls.",
+        note=TRUST + "the stack-usage calculator's private data is outside R10.a; helpers replaced after JIT compilation are a "
+             "documented limitation; cranelift_prog invalidation is checked in the cranelift configuration (thorough tier).",
+        technique="THIR symbolic execution of API methods with path rules",
+        design="5/C10"),
+    "C12": dict(
+        category="proof",
+        text="Panic inventory of the x86-64 JIT and of the Cranelift compiler with assume-guarantee rows; two-pass sizing passes "
+             "identical arguments; raw code-buffer writes only behind the emit assert / in fix-up; terminator opcodes have their "
+             "next block prepared; CFG targets only from verified offsets; no clock/RNG reachable (repeatability).",
+        note=TRUST + "Cranelift's own code and IR verifier are trusted; code size < 2^31 assumed from the instruction limit.",
+        technique="MIR abstract interpretation (panic inventory) + structural set rules over THIR summaries",
+        design="5/C12"),
+    "C15": dict(
+        category="proof",
+        text="For each of the 123 supported opcodes the disassembler loop body pushes exactly one HLInsn whose opc/dst/src/off are "
+             "the decoded fields and whose imm is sext(imm) (or the merged 64-bit lanes for lddw), with the right pc advance; panic "
+             "inventory of to_insn_vec with the precondition-excluded sites quoted. Text rendering is decided under C16.",
+        note=TRUST + "integer formatting by alloc::fmt trusted.",
+        technique="THIR symbolic summaries per opcode + MIR panic inventory",
+        design="5/C15"),
+    "C19": dict(
+        category="proof",
+        text="Panic inventory of every public helper under its pointer precondition; closed forms of gather_bytes (lane "
+             "expression), sqrti (cast-sqrt-cast), memfrob (loop shape) and strcmp's null case. The numeric clauses (sqrt exactness "
+             "below 2^52, printf byte count, rand range) are NOT decided: no sound static argument in reach.",
+        note=TRUST + "f64 sqrt/log and std thread-locals trusted.",
+        technique="MIR abstract interpretation + THIR symbolic closed forms",
+        design="5/C19"),
     "C14": dict(
         category="proof",
         text="Every panic-capable site reachable from assemble() (MIR Assert terminators, unwrap/index/panic calls, including "
